@@ -53,6 +53,7 @@ type Contract struct {
 	Shared     []string    // locations other goroutines may write: havoced at blocking operations
 	HavocPreserves []string // struct types (pkg.Type) assumed not to be written by uncontracted callees
 	NonNil         []string // callees whose first result is assumed non-nil
+	PropOnly       map[string]string // clause label / "count[name]" -> the only property it is generated for
 	// contracts on function literals ("Parent$N")
 	IsClosure    bool
 	FreeVars     string   // "name T, ..." : captured variables (by reference), in the literal's scope
@@ -285,6 +286,21 @@ func parseContractFile(path string) (*ContractFile, error) {
 					return nil, fmt.Errorf("%s:%d: count needs NAME PATTERN", path, ln)
 				}
 				cur.Counts = append(cur.Counts, [2]string{f[0], f[1]})
+			case "restrict":
+				// restrict PROP: label, count[name], ...  - these clauses / counters belong to one property only:
+				// they are generated when that property is checked and skipped for the function's other properties
+				i := strings.Index(rest, ":")
+				if i < 0 {
+					return nil, fmt.Errorf("%s:%d: restrict PROP: label, ...", path, ln)
+				}
+				if cur.PropOnly == nil {
+					cur.PropOnly = map[string]string{}
+				}
+				for _, m := range splitTop(rest[i+1:], ',') {
+					if m = strings.TrimSpace(m); m != "" {
+						cur.PropOnly[m] = strings.TrimSpace(rest[:i])
+					}
+				}
 			case "nonnil":
 				// nonnil PATTERN, ...: the (first) result of these callees is never nil - an assumption about code
 				// outside the contract, listed in the evidence
